@@ -83,6 +83,17 @@ pub fn c19_builds(r: &Runner) {
         .arg(format!("{}/host", target))
         .env_remove("RUSTFLAGS");
     run_build(r, "no-default-features: cargo build --no-default-features", &mut c);
+    // no_std with statically enabled vector features (what `-C target-cpu=native` gives a
+    // no_std user on x86): the vector kernels must then be core-only as well. Own target
+    // dirs: build.rs does not re-run when only RUSTFLAGS-derived cfgs change.
+    for (tag, flags) in [("sse42", "-C target-feature=+sse4.2"), ("avx2", "-C target-feature=+avx2"), ("sse42-avx2", "-C target-feature=+sse4.2,+avx2")] {
+        let mut c = Command::new("cargo");
+        c.current_dir(crate::repo_dir())
+            .args(["build", "--no-default-features", "--offline", "--target-dir"])
+            .arg(format!("{}/host-{}", target, tag))
+            .env("RUSTFLAGS", flags);
+        run_build(r, &format!("no-default-features+{}: RUSTFLAGS='{}' cargo build --no-default-features", tag, flags), &mut c);
+    }
 }
 
 /// SCREAMING_SNAKE identifiers of the source under test: candidates for environment variables
